@@ -273,3 +273,9 @@ package net
 //@   ensures result != nil && verif_fresh(result)
 //@   ensures uint32(result.len) == pfx.Length&255 && result.addr.higher == pfx.Address.Higher && result.addr.lower == pfx.Address.Lower && result.addr.isLegacy == (pfx.Address.Version == api.IP_IPv4)
 //@   modifies nothing
+
+// For contracts of other packages: a well-formed prefix, and two prefixes of one family.
+//@ spec
+//@ func Spec_OkPfx(p *Prefix) bool { return p != nil && spec_okPfx(*p) }
+//@ func Spec_SameFamily(p *Prefix, q *Prefix) bool { return p.addr.isLegacy == q.addr.isLegacy }
+//@ end
